@@ -301,3 +301,88 @@ Example print_parse_text_quote_excluded :
   let e := EBin 0 OEq (EField 0 KeyKW) (EStr 0 "a'b") in
   rt_ok e = true /\ txt_ok e = false /\ map strip (lex (render_text e)) <> rtoks e.
 Proof. cbv zeta. repeat split; try (vm_compute; reflexivity). vm_compute. discriminate. Qed.
+
+(* ---------------------------------------------------------------- EXPLAIN: the scan node's line
+   (Model/ExplainText.v, twin of FullScanPlan / PrefixScanPlan / RangeScanPlan / MultiGetPlan
+   .String(); the filter part is FilterExec.Explain() = String() of the tree the node RUNS, i.e.
+   the folded tree FoldStmt.exec_tree of the checked WHERE tree).  Cutting the filter text out of
+   the line and lexing + parsing it gives the tree the node runs -- for every access path, every
+   tree of the checked shape whose leaves print faithfully.  After constant folding the
+   premise txt_ok is NOT automatic: a folded NumberExpr can hold a negative numeral and a folded
+   FloatExpr an exponent with a sign (see explain_negative_constant_excluded); the correspondence
+   judges rt_ok / txt_ok of the executed tree on every generated statement. *)
+From KV Require Import Model.ScanIO Model.ExplainText.
+From Coq Require Import Ascii.
+
+Theorem explain_filter_reparses : forall sc f txt,
+  rt_ok f = true -> txt_ok f = true ->
+  explain_filter_text sc (explain_scan sc f) = Some txt ->
+  exists e', parse_expr_top (lex txt) = POk e' [] /\ erase e' = erase f.
+Proof. exact explain_filter_reparses_thm. Qed.
+Print Assumptions explain_filter_reparses.
+
+Example explain_filter_reparses_nonvacuous :
+  let f := EBin 9 OAnd (EBin 4 OPrefixMatch (EField 0 KeyKW) (EStr 7 "ab"))
+                       (EBin 20 OGt (ECall 13 (EName 13 "int") [EField 17 ValueKW]) (ENum 25 "5")) in
+  let sc := SPrefix "ab" in
+  rt_ok f = true /\ txt_ok f = true /\
+  explain_scan sc f = "PrefixScanPlan{Prefix = 'ab', Filter = '((KEY ^= 'ab') & (int(VALUE) > 5))'}" /\
+  explain_filter_text sc (explain_scan sc f) = Some "((KEY ^= 'ab') & (int(VALUE) > 5))" /\
+  explain_scan (SRange (Some "a") None) (EBin 4 OGte (EField 0 KeyKW) (EStr 7 "a"))
+    = "RangeScanPlan{Start = 'a', End = '<nil>', Filter = '(KEY >= 'a')'}" /\
+  exists e', parse_expr_top (lex "((KEY ^= 'ab') & (int(VALUE) > 5))") = POk e' [] /\
+             erase e' = erase f.
+Proof.
+  cbv zeta. repeat split; try (vm_compute; reflexivity).
+  eexists. split; vm_compute; reflexivity.
+Qed.
+
+(* what the folder can leave: -5 is no literal of the language (there is no unary minus) *)
+Example explain_negative_constant_excluded :
+  let f := EBin 11 OGt (ECall 0 (EName 0 "int") [EField 4 ValueKW]) (ENum 13 "-5") in
+  rt_ok f = true /\ txt_ok f = false /\
+  parse_expr_top (lex (render_text f)) = PErr (Some 14).
+Proof. cbv zeta. repeat split; vm_compute; reflexivity. Qed.
+
+(* ---------------------------------------------------------------- letter case at TEXT level:
+   two texts made of the same gaps and the same lexemes, except that words (keywords, operator
+   words, names, numbers -- everything outside quotes that is not a symbol) may differ in letter
+   case, lex to the SAME token list, offsets included; hence every parser twin returns the same
+   outcome on them (same tree, same positions, same error). *)
+Theorem keyword_case_irrelevant : forall items1 items2 tail,
+  Forall2 case_item_eq items1 items2 -> admissible items1 tail = true ->
+  admissible items2 tail = true /\
+  lex (LexSpec.render items1 tail) = lex (LexSpec.render items2 tail).
+Proof. exact keyword_case_irrelevant_thm. Qed.
+Print Assumptions keyword_case_irrelevant.
+
+Theorem keyword_case_same_tree : forall items1 items2 tail,
+  Forall2 case_item_eq items1 items2 -> admissible items1 tail = true ->
+  parse_expr_top (lex (LexSpec.render items1 tail)) = parse_expr_top (lex (LexSpec.render items2 tail))
+  /\ parse_statement (lex (LexSpec.render items1 tail)) = parse_statement (lex (LexSpec.render items2 tail)).
+Proof.
+  intros items1 items2 tail H Ha.
+  destruct (keyword_case_irrelevant items1 items2 tail H Ha) as [_ E]. rewrite E. split; reflexivity.
+Qed.
+Print Assumptions keyword_case_same_tree.
+
+Example keyword_case_irrelevant_nonvacuous :
+  let a : list LexSpec.item :=
+    [("", LWord "where"); (" ", LWord "key"); (" ", LWord "between"); (" ", LQuote "'"%char "And");
+     (" ", LWord "and"); (" ", LQuote "'"%char "b"); (" ", LWord "or"); (" ", LSym "!");
+     ("", LWord "lower"); ("", LSym "("); ("", LWord "value"); ("", LSym ")")] in
+  let b : list LexSpec.item :=
+    [("", LWord "WHERE"); (" ", LWord "Key"); (" ", LWord "BeTwEeN"); (" ", LQuote "'"%char "And");
+     (" ", LWord "AND"); (" ", LQuote "'"%char "b"); (" ", LWord "oR"); (" ", LSym "!");
+     ("", LWord "LOWER"); ("", LSym "("); ("", LWord "VALUE"); ("", LSym ")")] in
+  Forall2 case_item_eq a b /\ admissible a "" = true /\
+  LexSpec.render b "" = "WHERE Key BeTwEeN 'And' AND 'b' oR !LOWER(VALUE)" /\
+  LexSpec.render a "" <> LexSpec.render b "" /\
+  exists s, parse_statement (lex (LexSpec.render b "")) = SOk s.
+Proof.
+  cbv zeta. split.
+  { repeat (constructor; [split; reflexivity|]). constructor. }
+  repeat split; try (vm_compute; reflexivity).
+  - vm_compute. discriminate.
+  - eexists. vm_compute. reflexivity.
+Qed.
